@@ -219,14 +219,13 @@ def cancelStep (t : Task) : Task × List Act :=
 /-- first step of the task: `add_observation` (resource.py:158-166) and the first render -/
 def startTask (val : Nat) (t : Task) (plan : Plan) (accept : Bool) : Task × List Act :=
   if t.observe then
-    let acc : List Act := if accept then [.accept] else []
     match renderResp val plan with
     | some r =>
       let x := afterFirst val { t with accepted := accept } r .susp
-      (x.1, acc ++ .render val :: x.2)
+      (x.1, (if accept then [Act.accept] else []) ++ .render val :: x.2)
     | none =>
       ({ t with accepted := accept, phase := .firstRender, renderVer := val, runnable := false },
-       acc ++ [.render val])
+       (if accept then [Act.accept] else []) ++ [.render val])
   else
     match renderResp val plan with
     | some r =>
